@@ -111,7 +111,6 @@ impl MT935 {
 
         verify_parser_complete(&parser)?;
 
-
         Ok(MT935 {
             field_20,
             rate_changes,
